@@ -579,22 +579,84 @@ theorem nebula_csr_extra_refused (cfg : Cfg) (t : Token) (c : CSR) (ud : Option 
       rw [this]; simp
   simp [reqValid, hneb, this]
 
-/-- **nebula_token_names_unchecked** (refutation of "the certificate names what the credential
-    authorized" for Nebula): `Nebula.AuthorizeSign` takes the `sans` and `sub` claims of the token —
-    which the *holder of a Nebula host certificate* signs, not the Nebula CA — as they are;
-    `nebulaSANsValidator` only compares the CSR with the Nebula certificate. A token that lists
-    foreign names together with a CSR that lists none is issued a certificate for those names. -/
-theorem nebula_token_names_unchecked :
-    ∃ (cfg : Cfg) (t : Token) (c : CSR) (crt : Cert),
-      cfg.prov = .nebula ∧ cfg.hasTemplate = false ∧ sign cfg t c none ⟨true, true⟩ = .issued crt ∧
-      (∃ n ∈ crt.dns, n ∉ ofKind .dns (nebCreds t)) ∧ (∃ n ∈ crt.ips, n ∉ ofKind .ip (nebCreds t)) ∧
-      some crt.cn ≠ t.nebName.map (·.raw) :=
-  ⟨⟨.nebula, false, noClaims, noClaims, ⟨0, [1]⟩⟩,
-   ⟨⟨.dns, s "evil", s "evil"⟩, [⟨.dns, s "evil.example.com", s "evil.example.com"⟩, ⟨.ip, s "8.8.8.8", s "8.8.8.8"⟩],
-     .absent, none, none, some ⟨.dns, s "host-a.neb", s "host-a.neb"⟩, [s "10.1.1.7"]⟩,
-   ⟨true, [], [], [], [], [], 1, true, []⟩,
-   ⟨s "evil", [s "evil.example.com"], [s "8.8.8.8"], [], [], 1, [⟨0, [1]⟩]⟩,
-   rfl, rfl, by decide, by decide, by decide, by decide⟩
+/-! ### Authorize + Sign (`request`) -/
+
+theorem request_issued {cfg : Cfg} {t : Token} {c : CSR} {ud : Option UserData} {enc : Enc} {crt : Cert}
+    (h : request cfg t c ud enc = .issued crt) :
+    tokenAuthorized cfg t = true ∧ sign cfg t c ud enc = .issued crt := by
+  unfold request at h
+  split at h
+  · cases h
+  · rename_i ha; exact ⟨by simpa using ha, h⟩
+
+/-- for every provisioner but Nebula `AuthorizeSign` refuses nothing beyond token verification:
+    the request is the sign stage, and every theorem about `sign` above is one about `request` -/
+theorem request_eq_sign (cfg : Cfg) (t : Token) (c : CSR) (ud : Option UserData) (enc : Enc)
+    (hp : cfg.prov ≠ .nebula) : request cfg t c ud enc = sign cfg t c ud enc := by
+  unfold request tokenAuthorized
+  cases h : cfg.prov <;> simp_all
+
+theorem nebCertified_creds (t : Token) : ∀ x ∈ nebCreds t, nebCertified t x = true := by
+  intro x hx
+  simp only [nebCreds, List.mem_append, List.mem_map, Option.mem_toList] at hx
+  rcases hx with hx | ⟨ip, hip, rfl⟩
+  · simp [nebCertified, hx]
+  · simp [nebCertified, hip]
+
+/-- **nebula_names_certified.** (positive form since 62bb26c.) Every name of a certificate issued
+    for a Nebula token is the `(type, value)` form of a name the Nebula certificate certifies: its
+    `Details.Name`, or an IP equal to one of its `Details.Ips` — for every token (with or without a
+    `sans` claim), every CSR and every template data object. CN = token subject, key = CSR key. -/
+theorem nebula_names_certified (cfg : Cfg) (t : Token) (c : CSR) (ud : Option UserData) (enc : Enc) (crt : Cert)
+    (hp : cfg.prov = .nebula) (h : request cfg t c ud enc = .issued crt) :
+    (∀ n ∈ crt.names, ∃ x : San, n = x.name ∧ nebCertified t x = true) ∧
+    crt.cn = t.sub.raw ∧ crt.key = c.key := by
+  obtain ⟨ha, hs⟩ := request_issued h
+  obtain ⟨_, _, _, rfl⟩ := sign_issued hs
+  have hcert : ∀ x ∈ (if t.sans.isEmpty then nebCreds t else t.sans), nebCertified t x = true := by
+    split
+    · exact nebCertified_creds t
+    · intro x hx
+      simp only [tokenAuthorized, hp, List.all_eq_true] at ha
+      exact ha x hx
+  have h1 : (authorize cfg t).data.sans = createSANs (if t.sans.isEmpty then nebCreds t else t.sans) := by
+    simp [authorize, hp]
+  have h2 : (authorize cfg t).data.cn = t.sub.raw := by simp [authorize, hp]
+  have h3 : (authorize cfg t).tpl ≠ .admin := by simp only [authorize, hp]; split <;> simp
+  obtain ⟨hn, hc, hk⟩ := finalCert_leafish cfg (authorize cfg t) c (templateUser cfg ud) _ h1 h3
+  refine ⟨?_, by rw [hc, h2], hk⟩
+  intro n hmem
+  rw [hn] at hmem
+  have := (createSANs_perm _).mem_iff.mp hmem
+  obtain ⟨x, hx, rfl⟩ := List.mem_map.mp this
+  exact ⟨x, rfl, hcert x hx⟩
+
+/-- **nebula_foreign_token_refused.** A Nebula token that lists a name its certificate does not
+    certify is refused at authorization (403), whatever the CSR contains — in particular with the
+    empty CSR that used to get the certificate before 62bb26c. -/
+theorem nebula_foreign_token_refused (cfg : Cfg) (t : Token) (c : CSR) (ud : Option UserData) (enc : Enc)
+    (hp : cfg.prov = .nebula) (x : San) (hx : x ∈ t.sans) (hf : nebCertified t x = false) :
+    request cfg t c ud enc = .unauthorized 403 := by
+  have : tokenAuthorized cfg t = false := by
+    simp only [tokenAuthorized, hp, List.all_eq_false]
+    exact ⟨x, hx, by simp [hf]⟩
+  simp [request, this]
+
+/-- the former failing input (host-a.neb / 10.1.1.7 asking for evil.example.com and 8.8.8.8 with an
+    empty CSR): refused -/
+example :
+    request ⟨.nebula, false, noClaims, noClaims, ⟨0, [1]⟩⟩
+      ⟨⟨.dns, s "evil", s "evil"⟩, [⟨.dns, s "evil.example.com", s "evil.example.com"⟩, ⟨.ip, s "8.8.8.8", s "8.8.8.8"⟩],
+        .absent, none, none, some ⟨.dns, s "host-a.neb", s "host-a.neb"⟩, [s "10.1.1.7"]⟩
+      ⟨true, [], [], [], [], [], 1, true, []⟩ none ⟨true, true⟩ = .unauthorized 403 := by decide
+
+/-- a token that lists its own name and a respelled own address is accepted; the subject is free -/
+example :
+    request ⟨.nebula, false, noClaims, noClaims, ⟨0, [1]⟩⟩
+      ⟨⟨.dns, s "svc", s "svc"⟩, [⟨.ip, s "::ffff:10.1.1.7", s "10.1.1.7"⟩, ⟨.dns, s "host-a.neb", s "host-a.neb"⟩],
+        .absent, none, none, some ⟨.dns, s "host-a.neb", s "host-a.neb"⟩, [s "10.1.1.7"]⟩
+      ⟨true, [], [], [], [], [], 1, true, []⟩ none ⟨true, true⟩
+    = .issued ⟨s "svc", [s "host-a.neb"], [s "10.1.1.7"], [], [], 1, [⟨0, [1]⟩]⟩ := by decide
 
 /-- the same Nebula certificate without a `sans` claim: only its own name and address -/
 example :
